@@ -42,7 +42,7 @@ CHECKS = {
              text='Crystal_ArrayInit/AddCrystal (user and built-in collection)/GetCrystal/GetCrystalsList/MakeCopy/Free/ArrayFree/ReadFile of the real crystal_diffraction.c executed by CBMC from every array shape with capacity <= 2 and symbolic contents: invariant (sorted, counts, capacity) preserved on the object the caller holds, abstract content = old + new on success and unchanged on rejection, growth when full, built-in capacity enforced, independent copies, everything released by ArrayFree (memory-leak check)',
              note='capacity <= 2 (12 after growth), names <= 2 bytes, <= 1 atom; typed bsearch/qsort/memcpy models with the real comparators; libm stand-ins; Crystal_ReadFile over a stream model: every file of <= 3 lines (10 line kinds) + the one-edit neighbourhood of the canonical file on 5 pre-states, consistency facts only (no file grammar)'),
  'C07': dict(tech=A + ' (scanner: one nesting level of the real CompoundParserSimple per string shape, nested calls replaced by a contract stub via goto-instrument --replace-calls; add_compound_data; symbol table) + ' + B + ' (CompoundParser assembly, locale, ownership)', cat='model_checking',
-             text='(1) scanner: for every string shape of <= 3 characters (quick; <= 4 thorough) over the 9 character classes, one nesting level of the real scanner agrees with a reference grammar: accept/reject, strictly ascending element list, counts = algebraic expansion with nested group results scaled by their multiplier, text unmodified, exactly one error on rejection, no leak/double free/out-of-bounds; nesting depth by induction through the contract stub. (2) CompoundParser assembly for <= 3 elements: Elements/nAtoms copied, nAtomsAll, molarMass, massFractions, unweighable elements rejected, numeric locale restored, ownership. (3) add_compound_data for |A|,|B| <= 3: ascending union, wA*fA + wB*fB. (4) element symbol <-> Z bijection on the real table',
+             text='(1) scanner: for every string shape of <= 3 characters (quick; <= 4 thorough) over the 9 character classes, one nesting level of the real scanner agrees with a reference grammar: accept/reject, strictly ascending element list, counts = algebraic expansion with nested group results scaled by their multiplier, text unmodified, exactly one error on rejection, no leak/double free/out-of-bounds; nesting depth by induction through the contract stub. (2) CompoundParser assembly for <= 3 elements: Elements/nAtoms copied, nAtomsAll, molarMass, massFractions, unweighable elements rejected, numeric locale restored, ownership. (3) add_compound_data for |A|,|B| <= 3: ascending union, wA*fA + wB*fB. (4) element symbol <-> Z bijection on the real table; the parser lookup comparators realise strcmp and the generated sorted symbol table is sorted (direct); AtomicWeight contract (C01 accessor obligation) for "no atomic weight => rejected"',
              note='scanner bounds: strings <= 3 (4) characters per level, <= 2 groups per level, nested results <= 2 elements, subscripts/counts on an exact grid (multilinear identities), characters are class representatives, strtod value and element table abstract per position; formulas longer than the bound and libc strtod/ctype themselves are outside the claim'),
  'C03': dict(tech='composition: ' + B + ' and ' + A + ' (every per-topic obligation carries the error protocol of the function it encodes) + the error module under CBMC', cat='model_checking',
              text='for each exported function that some obligation encodes: success <=> empty slot, sentinel <=> exactly one error with an enum code and a non-empty literal message, no store over an existing error, same value with error == NULL, no domain error on success paths; the error module (set/propagate/clear/copy/free) for every slot state; evidence lists the exported functions that no obligation encodes',
@@ -51,13 +51,13 @@ CHECKS = {
              text='table indices inside declared dimensions and per-element rows inside [0,N) for every encoded query (any arguments, any table contents); crystal collections (inductive step), catalogue lookups, element symbols and the error module: no out-of-bounds/NULL/use-after-free/double free and no leak on success and failure paths',
              note='NOT covered: the formula scanner CompoundParserSimple (no solver verdict; valgrind only), Crystal_ReadFile, add_compound_data; histories of the non-container API by the frame argument of C16'),
  'C16': dict(tech='frame condition: Engine B evaluation from arbitrary table contents shows no read of mutable statics / no write to static storage; LLVM-IR scan of every unit for stores to statics and process-global libc calls; locale restoration proved on CompoundParser', cat='model_checking',
-             text='every encoded query is a function of its arguments and the (immutable) tables: no obligation finds a read of mutable static state or a write to static storage; the only process-global libc state touched is the numeric locale inside CompoundParser, proved restored on every path',
+             text='every encoded query is a function of its arguments and the (immutable) tables: no obligation finds a read of mutable static state or a write to static storage; the structure-factor value identities (stack scratch arrays) and add_compound_data (fresh heap arrays, CBMC malloc = arbitrary contents) show no dependence on uninitialised memory; the only process-global libc state touched is the numeric locale inside CompoundParser, proved restored on every path',
              note='reduction R-frame (DESIGN.md 2.5); pointer-indirect writes are covered only for functions evaluated by Engine B; crystal mutators are the documented exception'),
  'C17': dict(tech='thread-modular frame condition (same obligations as C16); no interleaving is explored (CBMC 6.11 refuses threads+pointers, measured)', cat='other',
              text='sufficient condition for race freedom under any schedule and thread count: disjoint write sets (caller-owned/fresh objects only) and reads of immutable data only; one known finding: setlocale in CompoundParser',
              note='no schedule enumerated, no race detector; malloc/free assumed thread-safe'),
  'C18': dict(tech=B + ' on the LLVM IR of a shim TU generated from the current cplusplus/xraylib++.h (one extern "C" entry per _XRL_FUNCTION instantiation); C functions are uninterpreted with the C03 contract; C++ exception runtime calls are modelled', cat='model_checking',
-             text='for _process_error, each of the 95 _XRL_FUNCTION wrappers (const-T... and std::string overloads as the C prototype dictates) and the 22 Crystal::Struct member / namespace-level / hand-written wrappers that pass scalars through (Bragg_angle, Q_scattering_amplitude, F_H_StructureFactor(_Partial), UnitCellVolume, dSpacing, AddCrystal, Atomic_Factors, SymbolToAtomicNumber, Refractive_Index), for all arguments and any behaviour of the C function allowed by its error contract: exactly one call of the C function of the same name with the wrapper\'s arguments in order and a NULL-initialised local error slot; C value returned unchanged when C succeeds; throws iff C set the error; bad_alloc/invalid_argument/runtime_error chosen by the code; message read before release; error released exactly once',
+             text='for _process_error, each of the 95 _XRL_FUNCTION wrappers (const-T... and std::string overloads as the C prototype dictates) the public Crystal::Struct constructor (cell, name, atoms copied into the owned C struct; libstdc++ members opaque) and the 22 Crystal::Struct member / namespace-level / hand-written wrappers that pass scalars through (Bragg_angle, Q_scattering_amplitude, F_H_StructureFactor(_Partial), UnitCellVolume, dSpacing, AddCrystal, Atomic_Factors, SymbolToAtomicNumber, Refractive_Index), for all arguments and any behaviour of the C function allowed by its error contract: exactly one call of the C function of the same name with the wrapper\'s arguments in order and a NULL-initialised local error slot; C value returned unchanged when C succeeds; throws iff C set the error; bad_alloc/invalid_argument/runtime_error chosen by the code; message read before release; error released exactly once',
              note='NOT covered: wrappers that build classes/vectors/strings (compoundData, compoundDataNIST, radioNuclideData, Crystal::Struct constructors/destructor/GetCrystal, Get*List, AtomicNumberToSymbol): libstdc++ container internals are outside the IR evaluator; exception constructors assumed not to throw; implicit argument conversions at user call sites (int passed for double) are not enumerated'),
 }
 NA = {
